@@ -59,6 +59,8 @@ def run(ctx) -> None:
   ctx.rule('R4', 'sign flip swaps both goals and multiplies objective values by -1.0', 2)
   ctx.rule('R5', 'NumpyExperimenter: raw-value converter; every path completes or marks infeasible', 2)
   ctx.rule('R6', 'shifting wrapper shrinks the declared bounds on the side the shift leaves', 1)
+  ctx.rule('R8', 'every given trial is completed: completing loops range over the whole argument, not a filtered sub-list', 8)
+  ctx.rule('R9', 'feature rows are built by parameter name, never from the iteration order of a trial\'s parameter dict', 1)
   ctx.import_rules('C14', {'R1'}, 'R7', 'seeded noise/permutation wrappers use no ambient entropy (process hash seed, clock, global RNG)')
   subs = [c for c in ctx.index.subclasses(EXP) if c.file.startswith(DIR)]
   if len(subs) < 20:
@@ -69,6 +71,8 @@ def run(ctx) -> None:
   r4_sign_flip(ctx)
   r5_numpy(ctx)
   r6_shift(ctx)
+  r8_all_given_trials(ctx, subs)
+  r9_by_name(ctx, subs)
 
 
 # ----------------------------------------------------------------------- R1
@@ -289,6 +293,76 @@ def r5_numpy(ctx) -> None:
             'complete(Measurement({metric: val})) or complete(..., infeasibility_reason=...) on every path of the loop body',
             'a path through evaluate() leaves a trial neither completed nor infeasible (or uses another metric name)',
             construct='complete', func=ev.qualname)
+
+
+# ----------------------------------------------------------------------- R8
+def r8_all_given_trials(ctx, subs: List[ClassInfo]) -> None:
+  """evaluate() completes every trial it is given: a loop that completes its loop variable ranges over the whole
+  `suggestions` argument (possibly through enumerate / zip / a deep copy), never over a filtered sub-list, and no early
+  return skips the batch."""
+  n = 0
+  for ci in subs:
+    ev = ci.methods.get('evaluate')
+    if ev is None or len(ev.params) < 2:
+      continue
+    par = ev.params[1]
+    g = cfgmod.CFG(ev.node)
+    rd = flow.ReachingDefs(g)
+    for loop in [x for x in g.nodes if x.kind == 'for']:
+      tv = {t.id for t in ast.walk(loop.ast.target) if isinstance(t, ast.Name)}
+      completes = [c for st in loop.ast.body for c in ast.walk(st) if isinstance(c, ast.Call) and isinstance(c.func, ast.Attribute)
+                   and c.func.attr == 'complete' and isinstance(c.func.value, ast.Name) and c.func.value.id in tv]
+      if not completes:
+        continue
+      n += 1
+      it = flow.unfold(loop.ast.iter, loop, g, rd)
+      filt = [x for x in ast.walk(it) if (isinstance(x, (ast.ListComp, ast.GeneratorExp, ast.SetComp)) and any(gen.ifs for gen in x.generators))
+              or (isinstance(x, ast.Call) and dotted(x.func) in ('filter', 'itertools.filterfalse', 'itertools.compress', 'itertools.takewhile', 'itertools.dropwhile'))
+              or (isinstance(x, ast.Subscript) and isinstance(x.slice, ast.Slice))]
+      whole = par in flow.names_in(it)
+      ctx.check(whole and not filt, 'R8', f'{ci.name}.evaluate: completing loop ranges over all given trials', loop.ast,
+                f'iterates `{unparse(loop.ast.iter, 40)}` (the whole argument)',
+                (f'the loop that completes trials iterates `{unparse(it, 70)}`: trials filtered out of it (e.g. already completed ones) '
+                 'keep whatever measurement they carried - a wrapper that evaluates one batch with several experimenters then reports '
+                 'the first objective for every objective') if filt else
+                f'the completing loop does not range over the `{par}` argument', construct=f'{ci.name}:filtered-batch', func=ev.qualname)
+  if n < 8:
+    raise AnalysisError(f'only {n} completing loops found in experimenters')
+
+
+# ----------------------------------------------------------------------- R9
+def r9_by_name(ctx, subs: List[ClassInfo]) -> None:
+  """Numeric feature rows are built from parameters *by name* (through a converter / explicit keys), never from the
+  iteration order of a trial's parameter dictionary: that order is whatever the caller inserted."""
+  n = 0
+  for ci in subs:
+    for m in ci.methods.values():
+      n += 1
+      hits = []
+      for x in ast.walk(m.node):
+        if isinstance(x, ast.Call) and isinstance(x.func, ast.Attribute) and x.func.attr in ('values', 'items', 'keys') and not x.args:
+          recv = unparse(x.func.value, 0)
+          if recv.endswith('.parameters') or recv.endswith('parameters.as_dict()') or recv.endswith('.parameters.get_value'):
+            # order-insensitive uses are fine: building a dict / set, membership, sorted(...)
+            par_ = getattr(x, '_vz_parent', None)
+            ordered_sink = False
+            a = x
+            for anc in ancestors(x):
+              if isinstance(anc, ast.Call) and (dotted(anc.func) or '').rsplit('.', 1)[-1] in ('array', 'asarray', 'stack', 'list', 'tuple', 'fromiter', 'concatenate'):
+                ordered_sink = True
+              if isinstance(anc, ast.Call) and (dotted(anc.func) or '').rsplit('.', 1)[-1] in ('sorted', 'dict', 'set', 'frozenset', 'len'):
+                break
+              if isinstance(anc, ast.stmt):
+                break
+            if ordered_sink and x.func.attr == 'values':
+              hits.append(x)
+      if hits:
+        ctx.bad('R9', f'{ci.name}.{m.name}: feature row from dict order', hits[0],
+                f'`{unparse(hits[0], 60)}` is turned into an array by position: the coordinates follow the insertion order of the '
+                'caller\'s ParameterDict, not the parameter names, so a trial whose parameters were set in another order is evaluated at '
+                'a permuted point', construct=f'{ci.name}.{m.name}:dict-order', func=m.qualname)
+  ctx.ok('R9', 'experimenters build feature rows by name', DIR, f'{n} methods scanned; no parameters.values() stacked into an array') \
+      if not any(o.rule == 'R9' and not o.ok for o in ctx.obligations) else None
 
 
 # ----------------------------------------------------------------------- R6
